@@ -28,7 +28,7 @@ REAL = ["bec2format.bf3file (set_config, derive_comments_from_config, writer, re
         "(derive_auth_blocks_from_config, Bec2File)", "bec2format.configid", "plug-in + pyaes"]
 STUBS = ["medium: SimFS (ENOSPC for failed writes, restart)", "RNG: SimRng", "RefCfg: model of components / comments / "
          "block kinds + own TLV block decoder"]
-PROBES = ["runs-with-assertions-disabled", "edit-through-kept-list-reference", "two-packages-aliasing-check", "second-file-object", "second-set-config", "component-without-type-before-config", "set-config-after-reload", "derive-after-reload",
+PROBES = ["runs-with-assertions-disabled", "bf3-write-default-key", "edit-through-kept-list-reference", "two-packages-aliasing-check", "second-file-object", "second-set-config", "component-without-type-before-config", "set-config-after-reload", "derive-after-reload",
           "failed-write", "stale-derived-comment-candidate", "derive-blocks-on-empty", "update-block-expected",
           "insert-behind-config"]
 ASSUMPTIONS = ["identifier existence rule taken from the C12 text: version present and (numeric scheme complete or name present)"]
@@ -57,7 +57,9 @@ def gen(st, tier):
             c = G.component_spec(w, enc=False, max_len=40)
             c["desc"] = [d for d in c["desc"] if d[0] != 0xC3]
             if w.random() < 0.6:
-                c["desc"].insert(w.randint(0, len(c["desc"])), [0xC3, "%02x" % w.choice([0, 1, 2])])
+                # type tags are byte strings: one byte as the library writes them, or longer ones as other tools do
+                c["desc"].insert(w.randint(0, len(c["desc"])),
+                                 [0xC3, w.choice(["00", "01", "02", "00", "01", "02", "0003", "000003", "0300", "1233", ""])])
             while G.desc_size(c["desc"]) > 210:
                 del c["desc"][-1 if c["desc"][-1][0] != 0xC3 else 0]
             ops.append(["add_comp", w.choice(["front", "mid", "end", "front"]), c])
@@ -66,6 +68,11 @@ def gen(st, tier):
                         w.choice([None, "1053", "abc def", "v: 2"])])
         elif r < 0.79:
             ops.append(["fresh_file"])
+        elif r < 0.815:
+            # the package alone (BF3 framing, default session key), written and loaded again
+            ops.append(["write_bf3", "pkg.bf3"])
+            if w.random() < 0.6:
+                ops.append(["reload_bf3", "pkg.bf3"])
         elif r < 0.84:
             ops.append(["write", "cfg.bec2"])
         elif r < 0.88:
@@ -173,6 +180,7 @@ def run(case):
         prev_cfg_comp = None               # configuration component object of an earlier package
         m_comments = {}
         last = None           # (name of the last durable write, snapshot, block tags)
+        last_bf3 = None
         codes = {}            # tag 2 -> code of the configuration it was derived from
         nset = 0
         ncfgops = 0
@@ -342,6 +350,34 @@ def run(case):
                     bf3.comments[key] = val
                     m_comments[key] = val
                 out.ev("comment", key)
+            elif k == "write_bf3":
+                try:
+                    bf3.write_file(op[1])
+                except Exception as e:
+                    out.fail("C11.write-raises", exc_site(e), "BF3 write raised %s: %s" % (type(e).__name__, e))
+                    break
+                last_bf3 = (op[1], G.snapshot_bf3(bf3))
+                out.probes["bf3-write-default-key"] += 1
+                out.ev("write_bf3")
+            elif k == "reload_bf3":
+                if not last_bf3 or last_bf3[0] != op[1]:
+                    continue
+                fs.restart()
+                try:
+                    gotb = env.bf3file.Bf3File.read_file(op[1])
+                except Exception as e:
+                    out.fail("C11.reload-raises", "%s@%s" % (type(e).__name__, exc_site(e)),
+                             "restart + reload of the BF3 package raised %s: %s" % (type(e).__name__, e))
+                    break
+                diff = G.compare_bf3(last_bf3[1], gotb)
+                if diff:
+                    out.fail("C11.reload-differs", "bf3-" + diff[0], "reloaded BF3 package differs from the object that "
+                             "was written (stale state in the written file?): %s" % diff[1])
+                    break
+                bec = bfm.Bec2File(gotb, list(bec.auth_blocks.values()), skey)
+                alias = bec.bf3file.components
+                reloaded = True
+                out.ev("reload_bf3", len(gotb.components))
             elif k in ("write", "failed_write"):
                 name = op[1]
                 if 0x01 not in bec.auth_blocks and 0x02 not in bec.auth_blocks:
